@@ -289,3 +289,17 @@ func ruleTimerStoppedOnFinal(c *Ctx, r5 string) {
 	c.Reach(r5, scn, "cancel stops the timer when one exists", ReachSpec{
 		Stop: `^call:dyn:.*\.timerCancel\(\)$`, Cut: []ir.Clause{clause("no timer", T(`^\(.*\.timerCancel == nil\)$`))}, Target: cnSend, Want: false})
 }
+
+// ruleOneTimerPerCall: the router-side timeout timer of a call is started only while the call has none (a second timer
+// would overwrite the only handle to the first, which then cannot be stopped when the call ends: it would act on a
+// finished call and hold up Close for its client-chosen duration).
+func ruleOneTimerPerCall(c *Ctx, rule string) {
+	sc := dlr + "syncCall"
+	c.Guard(rule, sc, "timer started and recorded", `^store:phi\(.*\)\.&timerCancel=call:context\.WithTimeout\(`, 1,
+		clause("the call has no timer yet", T(`^\(phi\(.*\)\.timerCancel == nil\)$`)),
+		clause("a router-handled timeout was asked for", T(`^\(0 < (phi\(0\|.*\)|call:wamp\.AsInt64\(.*)\)$`)))
+	c.Guard(rule, sc, "timer goroutine started", `^go:router\.\(\*dealer\)\.syncCall\$1\(`, 1, clause("the call has no timer yet", T(`^\(phi\(.*\)\.timerCancel == nil\)$`)))
+	if fn := c.P.Func(sc); fn != nil {
+		c.R.Check(len(matches(fn, `\.&timerCancel=`)) == 1, rule, sc, "the timer handle is written in one place only", c.P.FuncPos(fn), "several stores to invocation.timerCancel in syncCall")
+	}
+}
